@@ -149,7 +149,7 @@ fn c16_threshold_probes(ctx: &Ctx, l: &mut Local) {
             b.push_halfmove_clock(start as _);
             let mut g = MoveGenerator::new();
             // verdict at the placed clock
-            let e0 = evaluate::game_ending(&mut b, &mut g, ecol(p0.turn));
+            let e0 = match par::guarded(|| evaluate::game_ending(&mut b, &mut g, ecol(p0.turn))) { Ok(e) => e, Err(msg) => { ctx.violation(&format!("c16:panic:{}", par::last_panic_location()), &format!("game_ending with the half-move clock placed at {} panicked: {}", start, msg), json!({"fen": fen, "clock": start})); continue; } };
             l.inc("threshold_probes");
             if is_draw(&e0) != (start >= 100) { ctx.violation(if start < 100 { "c16:draw-reported-before-100" } else { "c16:draw-not-reported-at-100" }, &format!("with the half-move clock placed at {} game_ending says {:?}", start, e0), json!({"fen": fen, "clock": start})); }
             let em = engine_move(m, p0.turn);
@@ -160,7 +160,7 @@ fn c16_threshold_probes(ctx: &Ctx, l: &mut Local) {
             b.toggle_turn();
             let n = p0.make(m);
             if !n.legal_moves().is_empty() {
-                let e1 = evaluate::game_ending(&mut b, &mut g, ecol(n.turn));
+                let e1 = match par::guarded(|| evaluate::game_ending(&mut b, &mut g, ecol(n.turn))) { Ok(e) => e, Err(msg) => { ctx.violation(&format!("c16:panic:{}", par::last_panic_location()), &format!("game_ending with the half-move clock at {} panicked: {}", want, msg), json!({"fen": fen, "clock": start, "move": uci})); continue; } };
                 if is_draw(&e1) != (want >= 100) { ctx.violation(if want < 100 { "c16:draw-reported-before-100" } else { "c16:draw-not-reported-at-100" }, &format!("clock {} after a {}: game_ending says {:?}", want, kind, e1), json!({"fen": fen, "clock": start, "move": uci})); }
             }
         }
